@@ -45,6 +45,7 @@ type Task struct {
 	client bool
 	hits   int
 	delays int // window delays already spent on this task
+	holds  int // lock holds already spent on this task
 
 	blockedSince time.Time // first moment the task was found disabled (zero: not blocked)
 	blockedStep  int       // scheduler step at that moment (orders tasks blocked at the same instant)
@@ -94,6 +95,11 @@ type Sim struct {
 	// a whole critical section in the gap between two of its own; this does.
 	pDelayDen int
 	delayFor  time.Duration
+	// Lock holds: the dual. At a per-run subset (1 in pHoldDen) of the statements that directly follow a Lock/RLock, a
+	// task is held back for holdFor while it HOLDS the lock: everybody else meets a busy lock for as long as they can
+	// run (code that treats "busy" as "somebody else is doing my work", TryLock shortcuts, needs exactly this).
+	pHoldDen int
+	holdFor  time.Duration
 	pStallNum     int // probability (per 1000) that an enabled task is stalled for a quantum
 	writerPending bool
 
@@ -280,6 +286,15 @@ func (s *Sim) Hit(site int) {
 		t.stallUntil = time.Now().Add(s.delayFor)
 		s.stats["delay-after-unlock"]++
 		s.tracef("delay %s for %v after unlock @%s", shortKey(t.Key), s.delayFor, s.siteStr(site))
+		s.park(t, kHit, site)
+		return
+	}
+	if s.pHoldDen > 0 && t.holds < 2 && site >= 0 && site < len(verifhook.Sites) && verifhook.Sites[site].Kind == "locked" &&
+		mix64(s.seed^0x401d, verifhook.Sites[site].File, uint64(verifhook.Sites[site].Line))%uint64(s.pHoldDen) == 0 {
+		t.holds++
+		t.stallUntil = time.Now().Add(s.holdFor)
+		s.stats["hold-after-lock"]++
+		s.tracef("hold %s for %v after lock @%s", shortKey(t.Key), s.holdFor, s.siteStr(site))
 		s.park(t, kHit, site)
 		return
 	}
